@@ -80,6 +80,45 @@ def run_terms(binary, terms, seed, tag, threads, perturb=False):
     return results
 
 
+def step_level(chk):
+    """Binding of SharedStateImpl: the hooked steps of the completing thread and of every consumer's
+    start() on the real ensure_started / split shared state must be the spec's steps in the spec's order
+    (spec/SharedStateStepTrace.tla); every started consumer is delivered exactly once."""
+    (binary,) = vlib.build_harness(["ss_harness"])
+    nruns = 24 if chk.thorough() else 8
+    runs = [([chk.seed * 1000 + 300 + i, 250, 1 if i % 4 else 0], None) for i in range(nruns)]
+    hist = vlib.collect_histories(chk, binary, runs, "c03ss", timeout=300)
+    for h, o in hist:
+        chk.add_case(("ss", json.dumps(h)), nontrivial=any(r.get("site") == "ss.add.store" for r in h))
+    if hist:
+        chk.sample(dict(shared_state_steps=hist[0][0][:14]))
+    normal = [(h, o) for h, o in hist if not any(r.get("e") in ("crash", "hang") for r in h)]
+    special = [(h, o) for h, o in hist if any(r.get("e") in ("crash", "hang") for r in h)]
+    n_ok, rejected, states = vlib.validate_histories("SharedStateStepTrace", "SharedStateStepTrace.cfg",
+                                                     [h for h, _ in normal], "c03ss", batch=250, timeout=900)
+    chk.cov["traces_validated_against_impl"] += n_ok
+    chk.cov["shared_state_step_traces"] = n_ok
+    chk.cov["trace_validation_states"] = chk.cov.get("trace_validation_states", 0) + states
+    for (idx, maxl, viol) in rejected[:12]:
+        h, o = normal[idx]
+        at = json.dumps(h[maxl - 1]) if 0 < maxl <= len(h) else "end"
+        acc, _, _ = vlib.validate_batch("SharedStateStepTrace", "SharedStateStepTrace_flag_after_lock.cfg",
+                                        list(h) + [{"e": "reset"}], "c03ss-v", timeout=600)
+        replay = dict(origin=o, history=h, stuck_at=maxl, spec="SharedStateStepTrace", cfg="SharedStateStepTrace.cfg")
+        lost = any(r.get("e") == "quiescent" for r in h) or sum(1 for r in h if r.get("e") == "deliver") != \
+            sum(1 for r in h if r.get("e") == "start")
+        if acc:
+            chk.violation("the recorded steps of the shared state are not SharedStateImpl's (first unexplained record "
+                          "%d: %s) but are exactly those of its variant 'flag_after_lock', which TLC shows to strand a "
+                          "continuation" % (maxl, at), replay)
+        elif lost:
+            chk.violation("a consumer of the shared state was not signalled exactly once (record %d: %s)" % (maxl, at), replay)
+        else:
+            chk.drift.append("shared-state step trace no longer follows SharedStateImpl at record %d: %s" % (maxl, at))
+    for h, o in special:
+        chk.violation("shared-state harness crashed / hung", dict(origin=o, history=h[-40:]))
+
+
 def run():
     chk = Check("C03")
     (binary,) = vlib.build_harness(["sender_harness"])
@@ -126,6 +165,7 @@ def run():
                 raise vlib.ModelFailure("no result for term %s" % prefix(c["term"]))
             recs.append((c, o))
     chk.cov["shared_state_stress_runs"] = len(stress)
+    step_level(chk)
     nonv = 0
     for c, o in recs:
         chk.add_case((prefix(c["term"]), o.get("timings")), nontrivial=c["term"]["op"] not in ("just", "fail", "stop"))
